@@ -415,7 +415,16 @@ pub fn gen_program(rng: &mut Rng, c: &ProgCfg) -> Vec<Stmt> {
     let len = rng.range(1, c.max_stmts.max(1)) as usize;
     let mut p: Vec<Stmt> = Vec::new();
     let mut nlocks = 0usize;
-    let misc = |rng: &mut Rng| if rng.pct(50) { Stmt::Count } else { Stmt::Keys };
+    let lru = c.kind == Kind::Lru;
+    let misc = move |rng: &mut Rng| {
+        if lru && rng.pct(40) {
+            Stmt::Expire
+        } else if rng.pct(50) {
+            Stmt::Count
+        } else {
+            Stmt::Keys
+        }
+    };
     let discipline = if c.alock_pct > 0 && rng.pct(c.alock_pct / 2) {
         2
     } else if rng.pct(55) || c.nkeys == 1 {
